@@ -261,6 +261,34 @@ class Model:
             self._modfuncs[mod] = f
         return self._modfuncs[mod]
 
+    def field_written_outside_init(self, cls, field):
+        """some statement of the package other than <cls>.__init__ (and helpers only it calls) assigns, deletes or mutates in place an attribute named `field`"""
+        MUT = {'append', 'extend', 'insert', 'pop', 'remove', 'clear', 'update', 'setdefault', 'add', 'discard', 'popitem', 'sort', 'reverse', 'appendleft', 'popleft'}
+        for fn in self.all_funcs():
+            if fn.name == '__init__' and fn.cls is not None and cls in fn.cls.mro() + [d for d in self.subclasses(fn.cls)]:
+                continue
+            for n in ast.walk(fn.node):
+                tg = []
+                if isinstance(n, ast.Assign):
+                    tg = n.targets
+                elif isinstance(n, (ast.AugAssign, ast.AnnAssign)):
+                    tg = [n.target]
+                elif isinstance(n, ast.Delete):
+                    tg = n.targets
+                for t in tg:
+                    b = t
+                    while isinstance(b, ast.Subscript):
+                        b = b.value
+                    if isinstance(b, ast.Attribute) and b.attr == field:
+                        return True
+                if isinstance(n, ast.Call) and isinstance(n.func, ast.Attribute) and n.func.attr in MUT:
+                    b = n.func.value
+                    while isinstance(b, ast.Subscript):
+                        b = b.value
+                    if isinstance(b, ast.Attribute) and b.attr == field:
+                        return True
+        return False
+
     def record_fields(self, c, known_value_class=False):
         """ordered (field, default AST or None) of a class that is pure data and NEW relative to the pinned tree: a @dataclass / typing.NamedTuple
         (fields = annotated class attributes), else None.  Classes of the pinned tree keep their tabled treatment."""
